@@ -9,6 +9,7 @@ holds a paragraph ("text", default) / nothing but the images ("bare") / a paragr
 `ref` is the reference shape of the container format:
     docx/pptx/xlsx  relative | parent | absolute | shared | dup_rid_parts | missing | external    (verif.gen.ooxml image_ref)
     odt/odp/ods/odg plain | dot | missing | external           (a repeated id is one Pictures/ part referenced twice)
+                    ods also "cell": frames inside cell A1 instead of the sheet's table:shapes
     epub            relative | dot | parent | missing | external   (img/@src forms; a repeated id is one manifest item)
     pdf             own | shared                               (one XObject per anchor / per image key; JPEG only)
     rtf             hex | hex64 | shppict                      (\\pict hex on one line / wrapped every 64 bytes / in \\*\\shppict)
@@ -55,7 +56,7 @@ REFS = {"docx": ["relative", "parent", "absolute", "shared", "dup_rid_parts", "m
         "pptx": ["relative", "parent", "absolute", "shared", "dup_rid_parts", "missing", "external"],
         "xlsx": ["relative", "parent", "absolute", "shared", "dup_rid_parts", "missing", "external"],
         "odt": ["plain", "dot", "missing", "external"], "odp": ["plain", "dot", "missing", "external"],
-        "ods": ["plain", "dot", "missing", "external"], "odg": ["plain", "dot", "missing", "external"],
+        "ods": ["plain", "dot", "cell", "missing", "external"], "odg": ["plain", "dot", "missing", "external"],
         "epub": ["relative", "dot", "parent", "missing", "external"],
         "pdf": ["own", "shared"], "rtf": ["hex", "hex64", "shppict"], "ppt": ["blip"], "xls": ["blip"]}
 DOC_FORMATS = list(REFS)
@@ -181,13 +182,18 @@ def render(fmt, case, tk):
             if ref == "external":
                 oi[k] = ("http://verif.invalid/%s.%s" % (k, ext), ext)
             else:
-                oi[k] = (data, ext, {"href": ref})
+                oi[k] = (data, ext, {"href": "plain" if ref == "cell" else ref})
         if fmt == "ods":
             if var == "tbl":
                 raise NotImplementedError("a sheet is its own table")
             doc = ["doc", {}, [["sheet", tk.new("N"), ([] if var == "bare" else [[["s", tk.new("C")], ["i", 5]], [["s", tk.new("C")], ["i", 7]]])]
                                for u in units]]
-            at = [[si, keyof(im)] for si, u in enumerate(units) for im in u]
+            if ref == "cell":
+                if var == "bare":
+                    raise NotImplementedError("no cell to anchor the image in")
+                at = [[si, 0, 0, keyof(im)] for si, u in enumerate(units) for im in u]      # draw:frame inside cell A1
+            else:
+                at = [[si, keyof(im)] for si, u in enumerate(units) for im in u]            # table:shapes of the sheet
             return odf.ods(doc, oi, {"images_at": at})
         doc = ["doc", {}, [["unit", text_blocks(heading=(fmt == "odp")) + [["img", keyof(im)] for im in u] + tbl_blocks(), {}] for u in units]]
         return getattr(odf, fmt)(doc, oi, None)
@@ -633,11 +639,8 @@ def shrinks(case):
             yield {"units": [[[(nf if c == i else a), b, c] for a, b, c in u] for u in units], "ref": case["ref"], "var": var}
 
 
-def _default_ref(ref):
-    for r in REFS.values():
-        if ref in r:
-            return r[0]
-    return ref
+def _default_refs(ref):
+    return {r[0] for r in REFS.values() if ref in r}
 
 
 def embeds(small, big):
@@ -647,7 +650,7 @@ def embeds(small, big):
     if "fixture" in small or "fixture" in big:
         return small == big
     if small["ref"] != big["ref"]:
-        if not (small["ref"] == _default_ref(big["ref"]) and big["ref"] not in NO_IMAGE_REFS):
+        if not (small["ref"] in _default_refs(big["ref"]) and big["ref"] not in NO_IMAGE_REFS):
             return False
     if small.get("var", "text") != "text" and small.get("var") != big.get("var", "text"):
         return False
@@ -743,13 +746,16 @@ def run(ctx):
 
 ASSUMPTIONS = [
     "an image file referenced by several anchors (shared relationship, two relationships to one part, one ODF Pictures/ part, one PDF "
-    "XObject, one BLIP) may be returned once per anchor or once: required at least once per unit that shows it (page/slide/sheet formats) "
-    "or once per document, at most once per anchor; two separate parts with equal bytes must both be returned",
+    "XObject, one BLIP) may be returned once per anchor or once: required at least once per document, at most once per anchor, each "
+    "time attributed to a unit that anchors it; two separate parts with equal bytes must both be returned",
     "order is judged as 'returned byte sequence is a subsequence of the anchor sequence'",
-    "unit_number None is accepted for sheet formats (documented in ImageMetadata); docx/odt/rtf/epub have no page/slide/sheet: "
-    "attribution and view equality are not judged there, only reachability",
+    "unit_number None is accepted for sheet formats (documented in ImageMetadata); docx/odt/rtf/epub have no page/slide/sheet units and "
+    "the README is silent about odg units (the library yields one unit per drawing): attribution and view equality are not judged "
+    "there, only reachability; the number of units returned is not judged (units are matched by their unit_number)",
     "BMP in ppt/xls is stored as DIB (no file header): the DIB payload or the original BMP file are both accepted as 'identical bytes'",
-    "tables without rows are ignored when unit and document table views are compared",
+    "tables without rows are ignored and cells are compared as str(cell) when unit and document table views are compared (xls unit "
+    "tables are stringified copies by design)",
+    "odf: the draw:frame is 1cm x 1cm whatever the pixel size of the file; 'pixel size' is judged against the image file header",
     "missing / external references: no image may be returned for them (an entry with empty bytes counts as an image) and nothing may raise",
     "epub: the manifest lists the images in anchor order (document order of an EPUB is not settled between manifest and spine)",
     "ppt/xls are not named in the statement's quantifier; they are included because the statement is universal over documents",
